@@ -343,7 +343,7 @@ func (l *TomlConfigLoader) findPyscnToml(startDir string) (string, error) {
 
 	for {
 		configPath := filepath.Join(dir, ".pyscn.toml")
-		if _, err := os.Stat(configPath); err == nil {
+		if info, err := os.Stat(configPath); err == nil && !info.IsDir() {
 			return configPath, nil
 		}
 
@@ -397,7 +397,7 @@ func (l *TomlConfigLoader) FindConfigFileFromPath(startPath string) string {
 	current := dir
 	for {
 		pyscnPath := filepath.Join(current, ".pyscn.toml")
-		if _, err := os.Stat(pyscnPath); err == nil {
+		if info, err := os.Stat(pyscnPath); err == nil && !info.IsDir() {
 			return pyscnPath
 		}
 
